@@ -565,7 +565,8 @@ class EffectDomain(DefaultDomain):
             return None
         key = interp._key_of(f.value, fr, st)
         cur = st.get(key, None) if key is not None else None
-        if cur is None and f.attr in ("get", "items", "keys", "values", "copy") and isinstance(f.value, ast.Name) and not st.has(fr.local(f.value.id)):
+        if cur is None and f.attr in ("get", "items", "keys", "values", "copy") and (
+                (isinstance(f.value, ast.Name) and not st.has(fr.local(f.value.id))) or (isinstance(f.value, ast.Attribute) and (key is None or not st.has(key)))):
             # a table that is not a variable of this run (a module-level dict literal ...): it can be read
             got = interp.eval(f.value, st, fr)
             if len(got) == 1 and got[0].kind == "val" and isinstance(got[0].value, tuple) and got[0].value[:1] == ("kwdict",):
